@@ -17,6 +17,9 @@ type pair struct {
 	nodes []*Node
 	m     *Model
 	d     *chainDriver
+	// sequencer: some blocks carry a signature, and some of those enter through the sequencer
+	// path (Finalise with a signer) instead of the sync path
+	sequencer bool
 }
 
 func newPair(c *sim.Ctx, both bool) *pair {
@@ -44,9 +47,28 @@ func (p *pair) close() {
 func (p *pair) store() *chaingen.Block {
 	b := p.d.next(p.m.Head())
 	p.c.Logf("store block %d v%s hash=%s txs=%d diff=%s", b.B.Number, b.Version, short(b.B.Hash), len(b.B.Transactions), diffString(b))
+	finalise := false
+	if p.sequencer {
+		switch p.c.T.Draw("block.path", 4) {
+		case 2:
+			SignedVariant(b)
+			p.c.Probe("signed_block_synced")
+		case 3:
+			SignedVariant(b)
+			finalise = true
+			p.c.Logf("block %d enters through the sequencer path", b.B.Number)
+			p.c.Probe("block_finalised_with_signer")
+		}
+	}
 	for _, n := range p.nodes {
-		if err := n.StoreBlock(b); err != nil {
-			p.c.Fail("valid_block_rejected", "store", "[%s%s] valid block %d (v%s) rejected: %v", n.Name, backendName(n), b.B.Number, b.Version, err)
+		var err error
+		if finalise {
+			err = n.FinaliseBlock(b)
+		} else {
+			err = n.StoreBlock(b)
+		}
+		if err != nil {
+			p.c.Fail("valid_block_rejected", "store", "[%s%s] valid block %d (v%s) rejected (sequencer path %v): %v", n.Name, backendName(n), b.B.Number, b.Version, finalise, err)
 		}
 	}
 	p.m.Chain = append(p.m.Chain, b)
